@@ -26,7 +26,7 @@ func scenarios(tier string) []engine.Scenario {
 	seqDepth, qpDepth, terDepth, gauDepth, crpDepth := 5, 3, 4, 4, 3
 	momentsReads, lvlDepth := 4096, 3
 	if thorough {
-		seqDepth, qpDepth, terDepth, gauDepth, crpDepth = 6, 4, 6, 5, 5
+		seqDepth, qpDepth, terDepth, gauDepth, crpDepth = 7, 4, 7, 6, 5
 		momentsReads, lvlDepth = 1<<16, 4
 	}
 	for _, ch := range chains {
